@@ -1186,13 +1186,49 @@ def rule_barrier(facts):
 
 
 
+def rule_excl(facts):
+    """Declaration rule (replaces the planned compile-fail witness): every operator poll method receives its partition state by `&mut`
+    and the shared operator state by `&`; the pipeline / execution-stack drivers take `&mut self`. Exclusive access to a partition's state is
+    then enforced by the borrow checker for all schedules (no two workers can poll the same partition at once); what remains to be
+    decided by the other rules is the shared operator state."""
+    r = RuleResult("C04-EXCL", "operator poll methods take the partition state by `&mut` and the operator state by `&`; pipeline drivers take `&mut self`", floor=40)
+    for rec in facts.all_fns(["glaredb_core"]):
+        fid = rec["id"]
+        if "::tests::" in fid or rec.get("dk") == "Closure" or "testutil" in fid:
+            continue
+        nm = fid.rsplit("::", 1)[-1]
+        if not nm.startswith("poll_"):
+            continue
+        params = [t.strip() for t in rec["locals"][1:rec["argc"] + 1]]
+        if "Operator>" in fid and "execution::operators::" in fid:
+            part = [t for t in params if "Partition" in t and "State" in t]
+            shared = [t for t in params if "OperatorState" in t]
+            ok = all(t.startswith("&mut ") for t in part) and all(t.startswith("&") and not t.startswith("&mut ") for t in shared) and \
+                params[0].startswith("&") and not params[0].startswith("&mut ")
+            if not part and not shared:
+                continue        # unit states (`&()`): nothing to protect
+            r.functions.add(fid)
+            r.inst({"fn": fid, "partition_state": [t[:5] for t in part], "operator_state": [t[:4] for t in shared]}, ok)
+            if not ok:
+                r.violate(fid, "poll-signature", "an operator poll method takes its partition state by shared reference (or the operator / shared state by `&mut`): "
+                          "exclusive per-partition access is no longer enforced by the type system", rec["file"], rec["line"])
+        elif "execution::partition_pipeline::" in fid or "execution::execution_stack::" in fid:
+            ok = params and params[0].startswith("&mut ")
+            r.functions.add(fid)
+            r.inst({"fn": fid, "self": params[0][:5] if params else "?"}, bool(ok))
+            if not ok:
+                r.violate(fid, "driver-signature", "a pipeline driver method does not take `&mut self`: one partition pipeline could be polled from two workers at once",
+                          rec["file"], rec["line"])
+    return r
+
+
 def run(ctx):
     facts = ctx["facts"]
     mons, model = collect_monitor_model(facts)
     park, P = rule_park(facts, mons, model)
     PARK_SITES = [(i["fn"], i["ty"], i["slot"].split(".", 1)[1]) for i in park.instances]
     return [rule_pend(facts), park, rule_notify(facts, mons, model, P), rule_extcond(facts, mons, model), rule_addblocks(facts),
-            rule_stack(facts), rule_sched(facts), rule_err(facts, mons), rule_lock(facts, PARK_SITES), rule_barrier(facts)]
+            rule_stack(facts), rule_sched(facts), rule_err(facts, mons), rule_lock(facts, PARK_SITES), rule_barrier(facts), rule_excl(facts)]
 
 
 CLAIM = {
